@@ -106,7 +106,7 @@ impl Scenario for C13 {
                 0 | 1 => *rng.pick(&ALPHA_TIMES),
                 2 => ((rng.unit() - 0.3) * 10.0 * 8.0).round() / 8.0,
                 3 => (rng.unit() - 0.3) * 10.0,
-                4 => *rng.pick(&[0.5, 1.5, -0.5, 1e9, -1e9, 1e-9, 100.0, 1.0000000000000002, 0.5000000000000001, 0.25, 0.25000000000000006, 0.49999999999999994, 1e-17, 2e-16, 3e9, -3e9, 2147483647.0, 2147483648.0, f64::INFINITY, f64::NEG_INFINITY, f64::MAX, f64::MIN_POSITIVE]),
+                4 => *rng.pick(&[0.5, 1.5, -0.5, 1e9, -1e9, 1e-9, 100.0, 1.0000000000000002, 0.5000000000000001, 0.25, 0.25000000000000006, 0.49999999999999994, 1e-17, 2e-16, 3e9, -3e9, 2147483647.0, 2147483648.0, f64::INFINITY, f64::NEG_INFINITY, f64::MAX, f64::MIN_POSITIVE, 1e-310, 2e-310, -1e-310, 5e-324, -5e-324, 2.2250738585072009e-308]),
                 _ => rng.range(-3, 6) as f64,
             }
         };
